@@ -8,11 +8,38 @@ From TL Require Import Model.DryBase Model.DryPipe Gen.DryGen Model.Dry Actual.D
 From TL Require Import Model.SrpTypes Gen.SrpGen Model.SrpSpec Model.Srp Actual.SrpActual.
 From TL Require Import Gen.EditGen Model.EditRun Actual.EditActual.
 From TL Require Import Proofs.EditDry Proofs.EditSrp Proofs.EditFacts.
+From TL Require Import Model.DryFilter Model.EditFilter Proofs.EditFilterP Proofs.EditFilterK.
 
 (* dry_raw_span_count: the size a DRY violation reports (and the overlap filter uses) is end - start + 1 *)
 Theorem C13_dry_span_count_refuted : exists s e k, s <= k /\ k < e /\
   dry_line_count (shift_ins k s) (shift_ins k e) <> dry_line_count s e.
 Proof. exact EditDry.dry_span_count_refuted. Qed.
+
+(* f_kwarg_raw_lines: KeywordArgumentFilter takes the share of `name=value` lines among ALL raw lines of the block: a blank or a
+   comment line inside three keyword arguments makes 3 of 3 into 3 of 4 < 80%, the block is no longer dropped *)
+Theorem C13_kwarg_filter_blank_refuted :
+  decisions fq_actual "#" logger_match EditFilterP.kw_file [(1, 6)] 2 4 = [true; false; false; false] /\
+  decisions fq_actual "#" logger_match (ins 2 "" EditFilterP.kw_file) (calls_ins 2 [(1, 6)]) (shift_ins 2 2) (shift_ins 2 4) = [false; false; false; false] /\
+  decisions fq_actual "#" logger_match (ins 2 "    # the defaults" EditFilterP.kw_file) (calls_ins 2 [(1, 6)]) (shift_ins 2 2) (shift_ins 2 4)
+  = [false; false; false; false] /\
+  decisions EditFilterP.fq_ideal "#" logger_match (ins 2 "    # the defaults" EditFilterP.kw_file) (calls_ins 2 [(1, 6)]) (shift_ins 2 2) (shift_ins 2 4)
+  = [true; false; false; false].
+Proof. exact EditFilterK.kwarg_blank_refuted. Qed.
+
+(* f_reraise_counts_comments: a comment line between `except ..:` and `raise .. from ..` makes three lines of the pair *)
+Theorem C13_reraise_filter_comment_refuted :
+  decisions fq_actual "#" logger_match EditFilterK.rr_file [] 3 4 = [false; false; false; true] /\
+  decisions fq_actual "#" logger_match (ins 3 "    # keep the cause" EditFilterK.rr_file) [] (shift_ins 3 3) (shift_ins 3 4) = [false; false; false; false] /\
+  decisions EditFilterP.fq_ideal "#" logger_match (ins 3 "    # keep the cause" EditFilterK.rr_file) [] (shift_ins 3 3) (shift_ins 3 4) = [false; false; false; true].
+Proof. exact EditFilterK.reraise_comment_refuted. Qed.
+
+(* f_kwarg_trailing_ws: two spaces after `gamma =` (value on the next line) turn the line into a keyword-argument line: 3 of 5
+   becomes 4 of 5 = 80%, the block is dropped *)
+Theorem C13_kwarg_filter_trailing_ws_refuted :
+  decisions fq_actual "#" logger_match EditFilterK.kw_file2 [(1, 7)] 2 6 = [false; false; false; false] /\
+  decisions fq_actual "#" logger_match (upd 3 (fun l => (l ++ "  ")%string) EditFilterK.kw_file2) [(1, 7)] 2 6 = [true; false; false; false] /\
+  Forall2 EditFilterP.ws_var EditFilterK.kw_file2 (upd 3 (fun l => (l ++ "  ")%string) EditFilterK.kw_file2).
+Proof. exact EditFilterK.kwarg_trailing_ws_refuted. Qed.
 
 (* q_splitlines_unicode: a form feed appended to line 1 (white space for every parser) moves the suppression parser's
    numbering of every later line: the same-line directive on line 2 no longer applies to the violation the parser reports on line 2 *)
